@@ -269,6 +269,125 @@ def r18_2(ctx, counts) -> RuleResult:
     return res
 
 
+def r18_6(ctx, counts) -> RuleResult:
+    """function-type variance in is_sequence_type_restriction"""
+    model: Model = ctx.model
+    res = RuleResult(
+        'R18.6', 'FUNCTION-TYPE-VARIANCE',
+        'In sequence_types.is_sequence_type_restriction(st1, st2) ("st2 is a restriction of '
+        'st1") the recursive calls of the function-test branch follow XPath 3.1 §2.5.6.2: the '
+        'call on the parameter types (derived from element [0] of the `) as ` partition) swaps '
+        'the sides — contravariant — and the call on the return types (element [2]) keeps them '
+        '— covariant. Sides are tracked by a provenance walk from the two parameters through '
+        'slices, partition/split, zip targets and rebinding.')
+    mod = model.module('elementpath.sequence_types')
+    f = mod.toplevel_function('is_sequence_type_restriction')
+    if f is None:
+        raise AnalysisError('sequence_types.is_sequence_type_restriction vanished')
+    params = f.params()
+    if len(params) < 2:
+        raise AnalysisError('is_sequence_type_restriction: two parameters expected')
+    env: dict[str, tuple[int, Optional[str]]] = {params[0]: (1, None), params[1]: (2, None)}
+
+    def derive(e: ast.AST) -> Optional[tuple[int, Optional[str]]]:
+        if isinstance(e, ast.Name):
+            return env.get(e.id)
+        if isinstance(e, ast.Subscript):
+            base = derive(e.value)
+            if base is None:
+                return None
+            if isinstance(e.slice, ast.Constant) and isinstance(e.slice.value, int) and \
+                    base[1] == 'parts':
+                return (base[0], {0: 'params', 2: 'ret'}.get(e.slice.value))
+            return base
+        if isinstance(e, ast.Call) and isinstance(e.func, ast.Attribute):
+            base = derive(e.func.value)
+            if base is None:
+                return None
+            if e.func.attr == 'partition':
+                return (base[0], 'parts')
+            return base
+        if isinstance(e, ast.Call) and isinstance(e.func, ast.Name) and len(e.args) == 1:
+            return derive(e.args[0])        # unary normaliser keeps the side
+        return None
+
+    def bind(target: ast.AST, value: ast.AST) -> None:
+        if isinstance(target, ast.Name):
+            d = derive(value)
+            if d is not None:
+                env[target.id] = d
+            else:
+                env.pop(target.id, None)
+        elif isinstance(target, ast.Tuple) and isinstance(value, ast.Tuple) \
+                and len(target.elts) == len(value.elts):
+            for t, v in zip(target.elts, value.elts):
+                bind(t, v)
+
+    calls: list[tuple[ast.Call, Optional[tuple], Optional[tuple]]] = []
+
+    def walk(stmts: list[ast.stmt]) -> None:
+        for st in stmts:
+            for n in ast.walk(st) if not isinstance(st, (ast.For, ast.If, ast.While, ast.Try,
+                                                        ast.With)) else []:
+                if isinstance(n, ast.Call) and dotted(n.func) == f.name and len(n.args) >= 2:
+                    calls.append((n, derive(n.args[0]), derive(n.args[1])))
+            if isinstance(st, ast.Assign) and len(st.targets) == 1:
+                bind(st.targets[0], st.value)
+            elif isinstance(st, ast.For):
+                it = st.iter
+                if isinstance(it, ast.Call) and dotted(it.func).split('.')[-1] in (
+                        'zip', 'zip_longest') and isinstance(st.target, ast.Tuple) and \
+                        len(st.target.elts) == len(it.args):
+                    for t, a in zip(st.target.elts, it.args):
+                        bind(t, a)
+                else:
+                    bind(st.target, it)
+                walk(st.body)
+                walk(st.orelse)
+            elif isinstance(st, ast.If):
+                for n in ast.walk(st.test):
+                    if isinstance(n, ast.Call) and dotted(n.func) == f.name and len(n.args) >= 2:
+                        calls.append((n, derive(n.args[0]), derive(n.args[1])))
+                walk(st.body)
+                walk(st.orelse)
+            elif isinstance(st, (ast.While, ast.With)):
+                walk(st.body)
+            elif isinstance(st, ast.Try):
+                walk(st.body)
+                for h in st.handlers:
+                    walk(h.body)
+                walk(st.orelse)
+                walk(st.finalbody)
+
+    walk(f.node.body)
+    seen = {'params': 0, 'ret': 0}
+    for call, a, b in calls:
+        label = f'{stmt_text(call)[:70]}: args from {a} , {b}'
+        res.instances.append(label)
+        if a is None or b is None or a[1] != b[1] or a[1] not in ('params', 'ret'):
+            raise AnalysisError(f'is_sequence_type_restriction: provenance of the recursive '
+                                f'call `{stmt_text(call)[:60]}` not resolved ({a}, {b})')
+        seen[a[1]] += 1
+        want = (2, 1) if a[1] == 'params' else (1, 2)
+        if (a[0], b[0]) == want:
+            res.ok()
+        else:
+            kind = 'parameter' if a[1] == 'params' else 'return'
+            res.fail(finding('R18.6', f, call, f'{kind} types variance',
+                             f'`{stmt_text(call)[:70]}` compares the {kind} types with the '
+                             f'sides {"not swapped" if kind == "parameter" else "swapped"}: '
+                             f'function {kind} types are '
+                             f'{"contravariant" if kind == "parameter" else "covariant"} in '
+                             f'subtype-itemtype (XPath 3.1 2.5.6.2), so e.g. '
+                             f'function(xs:integer) as xs:integer would '
+                             f'{"accept" if kind == "return" else "reject"} the wrong direction'))
+    counts['variance_calls'] = len(calls)
+    if not seen['params'] or not seen['ret']:
+        raise AnalysisError(f'recursive calls located: {seen}; both a parameter and a return '
+                            f'call are expected')
+    return res
+
+
 def run(ctx) -> dict:
     counts: dict[str, int] = {}
     from .c10_datatypes import r10_1, SPEC as C10SPEC
@@ -280,7 +399,7 @@ def run(ctx) -> dict:
                                   'is_sequence_type', 'is_instance', 'validated_result',
                                   'validated_argument', 'validated_value'}, rule='R05.1')
     r4.title = 'JUDGEMENT-PURITY (R18.4 = R05.1 on the sequence-type judgement code)'
-    results = [r18_1(ctx, counts), r18_2(ctx, counts), r3, r4]
+    results = [r18_1(ctx, counts), r18_2(ctx, counts), r3, r4, r18_6(ctx, counts)]
     return {
         'results': results, 'counts': counts,
         'explanation':
